@@ -84,6 +84,13 @@ def select_table(ob, b, kind):
     def who(t):
         """req / def: which of the two inputs a payload term denotes"""
         s = strip_identity(t)
+        # `(a.zip(b) as Some).0.i`: the i-th of the two zipped options' payloads
+        if s[0] == "field" and s[2] in ("0", "1"):
+            z = strip_identity(s[1])
+            if z[0] == "field" and z[2] == "0" and z[1][0] == "variant" and z[1][2] == "Some":
+                zz = strip_identity(z[1][1])
+                if zz[0] == "call" and name_matches(zz[1], "core::option::Option::zip") and len(zz[2]) == 2:
+                    return who_field(zz[2][int(s[2])])
         while s[0] in ("field", "variant"):
             s = strip_identity(s[1])
         if s[0] == "call" and name_matches(s[1], ("Result::unwrap_or_else", "Result::unwrap_or", "Result::ok", "Result::unwrap_or_default")) \
@@ -95,8 +102,22 @@ def select_table(ob, b, kind):
             return "def"
         return "?" + show(s)[:30]
 
+    def zip_part(t):
+        """`(a.zip(b) as Some).0.i`: the i-th zipped option (its payload)"""
+        s = strip_identity(t)
+        if s[0] == "field" and s[2] in ("0", "1"):
+            z = strip_identity(s[1])
+            if z[0] == "field" and z[2] == "0" and z[1][0] == "variant" and z[1][2] == "Some":
+                zz = strip_identity(z[1][1])
+                if zz[0] == "call" and name_matches(zz[1], "core::option::Option::zip") and len(zz[2]) == 2:
+                    return zz[2][int(s[2])]
+        return None
+
     def who_field(t):
         s = strip_identity(t)
+        zp = zip_part(s)
+        if zp is not None:
+            return who_field(zp)
         if mentions_field(s, "default_timeout") and mentions_param(s, "self"):
             return "def"
         return who(t)
@@ -154,6 +175,8 @@ def select_table(ob, b, kind):
             return "v=?" + (c.fn or "?").split("::")[-1]
         if name_matches(c.fn, ("cmp::min", "cmp::Ord::min", "cmp::max", "cmp::Ord::max")) or is_tracing(c):
             return None
+        if name_matches(c.fn, "core::option::Option::zip") and len(c.args) == 2 and {who_field(oo.of_operand(c.args[0])), who_field(oo.of_operand(c.args[1]))} == {"req", "def"}:
+            return None
         if name_matches(c.fn, ("Result::unwrap_or_else", "Request::headers", "cmp::PartialOrd::lt", "cmp::PartialOrd::le", "cmp::PartialOrd::gt",
                                "cmp::PartialOrd::ge", "cmp::PartialEq::eq", "cmp::PartialEq::ne", "clone::Clone::clone")):
             return None
@@ -162,6 +185,10 @@ def select_table(ob, b, kind):
     def edge_sym(a, bb, subj, labels, oo):
         lab = "|".join(sorted(labels))
         if subj[0] == "discr":
+            z = strip_identity(subj[1])
+            if z[0] == "call" and name_matches(z[1], "core::option::Option::zip") and len(z[2]) == 2 and {who_field(z[2][0]), who_field(z[2][1])} == {"req", "def"}:
+                # `match header.zip(default)`: Some = both present, None = not both
+                return ["req=Some", "def=Some"] if labels == {"Some"} else ("zip=None" if labels == {"None"} else f"?discr(zip)={lab}")
             w = who_field(subj[1])
             if w in ("req", "def"):
                 return f"{w}={lab}"
@@ -224,6 +251,7 @@ def select_table(ob, b, kind):
         ob.count()
         conds = {}
         td = None
+        not_both = False
         lastv = "?"
         cmps = []
         rest = []
@@ -240,6 +268,8 @@ def select_table(ob, b, kind):
                 cmps.append(s)
             elif s.startswith("o=or("):
                 pass                # the Option produced by `a.or(b)`; named when it is stored into the timeout (td=or(..))
+            elif s == "zip=None":
+                not_both = True
             else:
                 rest.append(s)
         key = (conds.get("req"), conds.get("def"))
@@ -262,6 +292,8 @@ def select_table(ob, b, kind):
             for r_ in ([key[0]] if key[0] in ("Some", "None") else ["Some", "None"]):
                 for d_ in ([key[1]] if key[1] in ("Some", "None") else ["Some", "None"]):
                     pres = {"req": r_ == "Some", "def": d_ == "Some"}
+                    if not_both and pres["req"] and pres["def"]:
+                        continue            # this path is the `None` arm of `header.zip(default)`
                     v_ = f"Some({first})" if pres[first] else (f"Some({second})" if pres[second] else "None")
                     table.setdefault((r_, d_), set()).add((v_, tuple(cmps)))
             continue
@@ -330,8 +362,11 @@ def run(cx):
             uw = [c for c in b.calls_to("Result::unwrap_or_else") if term_has_call(o.of_operand(c.args[0]), f"{TO}::try_parse_timeout")]
             ob.floor(uw, 1, "unwrap_or_else on try_parse_timeout", exact=True)
             ct = o.of_operand(uw[0].args[1])
-            ob.require(ct[0] == "agg" and ct[1] == "closure", f"{kind}/parse-error-closure", f"parse error handler is {show(ct)}", b.path)
-            cb = cx.body(ct[2])
+            ct = strip_identity(ct)
+            is_cl = ct[0] == "agg" and ct[1] == "closure"
+            is_fn = ct[0] == "fnptr" and ct[1] in prog.bodies and prog.bodies[ct[1]].crate == "anemo"        # a named private fn instead of the closure
+            ob.require(is_cl or is_fn, f"{kind}/parse-error-closure", f"parse error handler is {show(ct)}", b.path)
+            cb = cx.body(ct[2] if is_cl else ct[1])
             rets = [s for bl in cb.blocks if not bl.get("cleanup") for s in bl["s"] if s["k"] == "assign" and s["lhs"] == 0]
             calls0 = [c for c in cb.calls() if c.dest == 0 and not cb.is_cleanup(c.bb)]
             ok = rets and not calls0 and all(s["rv"]["k"] == "agg" and s["rv"].get("adt") == "core::option::Option" and s["rv"]["variant"] == "None" for s in rets)
@@ -442,6 +477,8 @@ def run(cx):
                     if r[0] == "call" and name_matches(r[1], "Future::poll"):
                         which = "inner" if mentions_field(r[2][0], "inner") else "sleep" if mentions_field(r[2][0], "sleep") else "?"
                         return f"{which}={lab}"
+                    if mentions_field(r, "sleep") and labels and labels <= {"Ready", "Pending"}:
+                        return "sleep=" + lab          # the Poll produced by `sleep.as_pin_mut().map(|s| s.poll(cx))`, matched as Some(Ready|Pending)
                     if r[0] == "call" and name_matches(r[1], "Option::as_pin_mut"):
                         return "sleep?=" + lab
                     if mentions_field(r, "sleep"):
@@ -470,8 +507,9 @@ def run(cx):
                             return "ret=Ready(inner result)"
                         if i[0] == "agg" and i[2].endswith("Result::Ok") and any(x[0] == "agg" and x[2].endswith("StatusCode::RequestTimeout") for x in walk(i)):
                             return "ret=Ready(Ok(RequestTimeout))"
-                        if i[0] == "agg" and i[2].endswith("Result::Err") and any(x[0] == "agg" and x[2].endswith("TimeoutExpired::TimeoutExpired") for x in walk(i)):
-                            return "ret=Ready(Err(TimeoutExpired))"
+                        if i[0] == "agg" and i[2].endswith("Result::Err") and any((x[0] == "agg" and x[2].endswith("TimeoutExpired::TimeoutExpired")) or
+                                                                                   (x[0] == "named" and "::TimeoutExpired::" in str(x[1])) for x in walk(i)):
+                            return "ret=Ready(Err(TimeoutExpired))"         # (the type has a single value; an associated const of it is that value)
                     return "ret=?" + show(t)[:60]
                 return None
             ws = words_of(b, call_sym, edge_sym, stmt_sym)
@@ -484,7 +522,15 @@ def run(cx):
                     ws2.add(w[:i_] + ("sleep=Ready", "ret=Ready(" + sm[0][len("ret=sleepmap("):-1] + ")") + w[i_ + 1:])
                 else:
                     ws2.add(w)
-            ws = ws2
+            # `sleep.as_pin_mut().map(|s| s.poll(cx))` polls inside the map before the Option is matched: same events
+            ws3 = set()
+            for w in ws2:
+                w = list(w)
+                for i_ in range(len(w) - 1):
+                    if w[i_] == "poll(sleep)" and w[i_ + 1] == "sleep?=Some":
+                        w[i_], w[i_ + 1] = w[i_ + 1], w[i_]
+                ws3.add(tuple(w))
+            ws = ws3
             check_words(ob, b, ws, {
                 "poll(inner) inner=Ready ret=Ready(inner result) <return>",
                 "poll(inner) inner=Pending sleep?=None ret=Pending <return>",
